@@ -272,7 +272,7 @@ def run_canv(p: Project, clause: str, floor: int, exceptions: dict, extra_root: 
             is_canvas_like = True
             rr.inst(ident, True, {"function": short(fi), "receiver": recv.id, "use": norm(use, 80), "fresh": not verdicts})
             if verdicts and is_canvas_like:
-                key = f"{short(fi)}:{recv.id}{what.strip()}"
+                key = f"{short(fi)}:{what.strip()}"  # keyed by function + mutator, not by the local's name
                 if key in exceptions:
                     rr.exceptions_used.append(f"{key} - {exceptions[key]}")
                     continue
